@@ -1,0 +1,102 @@
+// Verification contracts (comment-only, compiled only with the "verif" build tag; read by /verif/govc).
+
+//go:build verif
+// +build verif
+
+package trie
+
+// Contracts for sync.go — property C19: "state/trie sync reproduces the source exactly or reports incompleteness".
+// Level: guard contracts (DESIGN §7 C19). What is decided here, per function:
+//  * Process records data only for an item that was requested and not yet processed, and for a trie node only after it decoded;
+//  * commit is entered only with data present and no open dependency, stores into the membatch BEFORE it forgets the request, is the only
+//    function that writes the membatch and — with schedule, which never deletes — the only one that updates `requests`;
+//  * dependency counts: Process adds exactly the number of child requests and schedules exactly those; schedule merges duplicates;
+//  * Commit(dbw) writes the membatch in insertion order and reports the index of the failed write.
+// The global theorem (Pending() == 0 ==> the database holds the complete trie with the same root) is NOT decided (needs C13).
+
+// `requests` is updated by schedule (insert only) and commit (delete only); the membatch is written by commit only.
+//@ owns Sync.requests by NewSync, (*Sync).schedule, (*Sync).commit props C19
+//@ owns syncMemBatch.batch, syncMemBatch.order by newSyncMemBatch, (*Sync).commit props C19
+
+// ---------------------------------------------------------------------------------------------------------------------
+// commit: membatch discipline
+//@ func (*Sync).commit props C19
+//@ requires [nonnil] s != nil && req != nil && s.membatch != nil && s.membatch.batch != nil && s.requests != nil
+// (its entry conditions "data present, no open dependency" are asserted at the three call sites — the two in Process below and the recursive
+//  parent step here — rather than written as `requires`: that a parent whose count reaches 0 HAS its data needs the request-graph invariant
+//  "deps > 0 ==> data recorded", which is not inductive over machine integers (deps-- at the minimal int) and belongs to the undecided global part)
+//@ assert before call (*Sync).commit: [parent-dependencies-resolved] a1.deps == 0 && a0 == s
+//@ let h0 = req.hash
+//@ assert before delete#1: [stored-before-forgotten] in(req.hash, s.membatch.batch) && s.membatch.batch[req.hash] == req.data
+//@ loop rangeindex invariant [objects] s.membatch == old(s.membatch) && s.requests == old(s.requests) && s.membatch.batch == old(s.membatch.batch)
+//@ loop rangeindex invariant [stored] in(h0, s.membatch.batch)
+//@ loop rangeindex invariant [membatch-grows] forall h: common.Hash :: { old(in(h, mapdom(s.membatch.batch))) } old(in(h, s.membatch.batch)) ==> in(h, s.membatch.batch)
+//@ ensures [stored] in(h0, s.membatch.batch)
+//@ ensures [objects] s.membatch == old(s.membatch) && s.requests == old(s.requests) && s.membatch.batch == old(s.membatch.batch)
+//@ ensures [membatch-grows] forall h: common.Hash :: { old(in(h, mapdom(s.membatch.batch))) } old(in(h, s.membatch.batch)) ==> in(h, s.membatch.batch)
+
+// ---------------------------------------------------------------------------------------------------------------------
+// schedule: inserts or merges, never deletes
+//@ func (*Sync).schedule props C19
+//@ opt abstract-slices
+//@ requires [nonnil] s != nil && req != nil && s.requests != nil && s.queue != nil
+//@ ensures [objects] s.requests == old(s.requests) && s.membatch == old(s.membatch)
+//@ ensures [inserted] !old(in(req.hash, s.requests)) ==> in(req.hash, s.requests) && s.requests[req.hash] == req
+//@ ensures [merged-keeps-first] old(in(req.hash, s.requests)) ==> s.requests[req.hash] == old(s.requests[req.hash]) && mapdom(s.requests) == old(mapdom(s.requests))
+//@ ensures [merged-parents-added] old(in(req.hash, s.requests)) && old(s.requests[req.hash]) != nil ==> len(s.requests[req.hash].parents) == old(len(s.requests[req.hash].parents)) + old(len(req.parents))
+//@ ensures [never-deletes] forall h: common.Hash :: { in(h, s.requests) } old(in(h, s.requests)) ==> in(h, s.requests) && (h != req.hash ==> s.requests[h] == old(s.requests[h]))
+//@ ensures [nothing-else-inserted] forall h: common.Hash :: { in(h, s.requests) } in(h, s.requests) && h != old(req.hash) ==> old(in(h, s.requests))
+//@ ensures [counts-untouched] forall r: *request :: { r.deps } r.deps == old(r.deps) && r.data == old(r.data) && r.raw == old(r.raw)
+
+// ---------------------------------------------------------------------------------------------------------------------
+// Pending
+//@ func (*Sync).Pending props C19
+//@ requires [nonnil] s != nil && s.requests != nil
+//@ pure
+//@ opt noalloc
+//@ ensures [open-requests] result == len(s.requests)
+
+// ---------------------------------------------------------------------------------------------------------------------
+// ("data present" at the commit sites is relative to the input: the data recorded is the delivered item's. Process does not reject an item whose
+//  Data is nil: for a requested raw hash it would store an empty entry and the `data != nil` processed-marker would not latch; what prevents it
+//  is the hash binding of the caller, downloader.processNodeData: nil data hashes to keccak(""), which AddRawEntry never requests.)
+// Process: an item is recorded only if it was requested and not yet processed; a trie node only after it decoded; commit is entered only
+// with data present and no open dependency; the dependency count grows by exactly the number of child requests, and exactly those are scheduled.
+//@ ghost var c19DecodeOK: bool
+//@ ghost var c19Deps0: int
+//@ ghost var c19Data: Slice
+//@ func decodeNode props C19
+//@ nobody
+//@ modifies nothing
+//@ func (*Sync).children props C19
+//@ nobody
+//@ ensures s.requests == old(s.requests) && mapdom(s.requests) == old(mapdom(s.requests)) && mapval(s.requests) == old(mapval(s.requests)) && req.data == old(req.data) && req.raw == old(req.raw)
+
+//@ func (*Sync).Process props C19
+//@ requires [nonnil] s != nil && s.requests != nil && s.membatch != nil && s.membatch.batch != nil && s.queue != nil
+//@ ghost after call decodeNode: c19DecodeOK := (ret1 == nil)
+//@ ghost before store deps#1: c19Deps0 := request.deps
+//@ ghost before store data#1: c19Data := item.Data
+//@ modifies all, c19DecodeOK, c19Deps0, c19Data
+// (anchors count in SSA block order: store data#1 is the trie-node branch at sync.go:194, #2 the raw branch at :184)
+//@ assert before store data#1: [requested-and-unprocessed] request != nil && request == s.requests[item.Hash] && isnil(request.data) && !request.raw
+//@ assert before store data#1: [decoded-before-recorded] c19DecodeOK
+//@ assert before store data#2: [requested-and-unprocessed-raw] request != nil && request == s.requests[item.Hash] && isnil(request.data) && request.raw
+//@ assert before call (*Sync).commit#1: [delivered-data-no-open-dependency] a1 == request && a1.data == c19Data && a1.deps == 0 && len(requests) == 0 && !a1.raw
+//@ assert before call (*Sync).commit#2: [raw-delivered-data] a1 == request && a1.data == item.Data && a1.raw
+//@ assert after store deps#1: [adds-children-count] request.deps == c19Deps0 + len(requests) || request.deps == c19Deps0 + len(requests) - 2^64
+//@ assert before call (*Sync).schedule#1: [schedules-exactly-the-children] 0 <= rangeindex + 1 && rangeindex + 1 < len(requests) && a1 == requests[rangeindex + 1]
+
+// ---------------------------------------------------------------------------------------------------------------------
+// Commit(dbw): the membatch is written in insertion order (commit appends a child before the parents it completes), and a failed write is
+// reported with its index while the membatch is kept — an interrupted flush never drops what was not written.
+//@ ghost var c19Puts: int
+//@ func (*Sync).Commit props C19
+//@ requires [nonnil] s != nil && s.membatch != nil && s.membatch.batch != nil && dbw != nil
+//@ ghost after call (youdb.Putter).Put: c19Puts := c19Puts + 1
+//@ modifies all, c19Puts
+//@ loop rangeindex invariant [written-so-far] -1 <= rangeindex && rangeindex < old(len(s.membatch.order)) && c19Puts == old(c19Puts) + rangeindex + 1 &&
+//@     s.membatch == old(s.membatch) && s.membatch.order == old(s.membatch.order)
+//@ assert before call (youdb.Putter).Put: [in-insertion-order] c19Puts == old(c19Puts) + rangeindex + 1 && a1 == s.membatch.batch[s.membatch.order[rangeindex + 1]]
+//@ ensures [failed-write-index] result1 != nil ==> result0 == c19Puts - old(c19Puts) - 1 && s.membatch == old(s.membatch)
+//@ ensures [all-written] result1 == nil ==> result0 == old(len(s.membatch.order)) && c19Puts == old(c19Puts) + result0 && fresh(s.membatch)
